@@ -161,7 +161,10 @@ for name, sdef in shapes.items():
         for i in range(n):
             if fresh_evaluators and i %% 50 == 0:
                 ev = L.Evaluator(model)
-            ev.evaluate(addrs[i %% len(addrs)])
+            try:
+                ev.evaluate(addrs[i %% len(addrs)])
+            except Exception:       # a cell that raises (unknown function) raises every time: its footprint counts all the same
+                pass
     for mode in (False, True):
         batch(%(warm)d, mode)
         gc.collect()
